@@ -49,6 +49,18 @@ CAUGHT = {
     "C12-m4": ["C12 quick (after the history clock got sub-second steps)"], "C12-m5": ["C12 quick"], "C12-m6": ["C12 quick"],
     "C13-m4": ["C13 quick"], "C13-m5": ["C13 quick"],
     "C13-m6": ["C13 quick (after shapes with an operator on a single-reference group carrying an operator were added)"],
+    "C04-m4": ["C04 quick", "C05 quick"], "C04-m5": ["C04 quick", "C05 quick"], "C04-m6": ["C04 quick (SLR)", "C05 quick"],
+    "C09-m4": ["C09 quick"], "C09-m5": ["C09 quick"], "C09-m6": ["C09 quick"],
+    "C14-m4": ["C14 quick (after the default ws was compared, as a character set, on texts with white space outside it; before: only the source extraction broke, no-failing-input-found)"],
+    "C14-m5": ["C14 quick"],
+    "C14-m6": ["C14 quick (after the family with comments opening like the division operator was added)"],
+    "C15-m4": ["C15 quick"], "C15-m5": ["C15 quick (after histories with GLR parses aborted inside a forked frontier were added)"],
+    "C15-m6": ["C15 quick"],
+    "C16-m4": ["C16 quick"], "C16-m5": ["C16 quick (after the conflict report was hashed in report order instead of sorted)"],
+    "C16-m6": ["C16 quick (after forests of GLRParser(consume_input=False) -- several accepted heads -- were hashed)"],
+    "C18-m4": ["C18 quick"], "C18-m5": ["C18 quick"],
+    "C18-m6": ["C18 quick (after both sides were built with default arguments and an operator without static associativity was added)"],
+    "C19-m4": ["C19 quick (after texts with letters outside ASCII were added)"], "C19-m5": ["C19 quick"], "C19-m6": ["C19 quick", "C07 quick"],
     "C17-m1": ["C17 quick"], "C17-m2": ["C07 quick (scanner with consume_input=False); not C17 itself (its scope has no terminal priorities)"], "C17-m3": ["C17 quick"],
 }
 
